@@ -1,5 +1,6 @@
 import UscxmlVerif.Model.Exec
 import UscxmlVerif.Spec.Descriptor
+import UscxmlVerif.Model.Tables
 /-!
 # W3C SCXML 1.0, Appendix D: the algorithm for SCXML interpretation (the oracle for C01)
 
@@ -22,6 +23,10 @@ structure Quirks where
   histDomainRaw : Bool := false
   /-- all history states share one set of remembered states -/
   sharedHistory : Bool := false
+  /-- the transpilers' selection (recorded finding `nested-targetless`): every transition is a candidate, in post-fix order,
+  and is pre-empted by an already selected one it conflicts with in the static table (intersecting exit sets, or equal /
+  nested sources) - instead of one candidate per atomic state and conflicts by exit sets -/
+  transpilerSelect : Bool := false
   deriving Repr, Inhabited
 
 structure SState where
@@ -169,6 +174,22 @@ def firstEnabled (c : Chart) (config : List Nat) (ev : Option String) : List Nat
 
 /-- `selectEventlessTransitions` (`ev = none`) / `selectTransitions(event)` -/
 def selectTransitions (c : Chart) (s : SState) (ev : Option String) : SState × List Nat :=
+  if s.q.transpilerSelect then
+    let (x, sel) := (List.range c.trans.size).foldl (fun (acc : XS × List Nat) ti =>
+      let t := tr c ti
+      if t.isHistory || t.isInitial || !s.config.contains t.source then acc
+      else
+        let applicable := match ev, t.event with
+          | none, none => true
+          | some e, some d => nameMatch e d
+          | _, _ => false
+        if !applicable then acc
+        else if acc.2.any (fun j => Model.Tables.conflicts c ti j) then acc
+        else
+          let (x, b) := evalCond c s.config acc.1 t.cond
+          if b then (x, acc.2 ++ [ti]) else (x, acc.2)) (s.x, [])
+    ({ s with x := x }, sel)
+  else
   let atomics := (s.config.filter (isAtomicState c)).mergeSort (· ≤ ·)
   let (x, enabled) := atomics.foldl (fun (acc : XS × List Nat) a =>
     let (x, r) := firstEnabled c s.config ev (a :: getProperAncestors c a none) acc.1
